@@ -51,6 +51,22 @@ TRUSTED = ["modelled, not verified: Python exception propagation/try-except-fina
 
 EXCS = ["KeyError", "OSError", "ValueError", "RecursionError", "RigFault", "TypeError", "AttributeError",
         "ZeroDivisionError", "MemoryError", "IndexError", "RuntimeError", "UnicodeError"]
+# every type is injected with every message shape: with a message, no args, "", whitespace-only, multi-line,
+# non-string args, and an instance whose __str__/__repr__ raise
+VARIANTS = list(TR.EXC_VARIANTS)
+
+
+def pick_exc(rng: random.Random, k: Optional[int] = None) -> str:
+    """`Type:variant`; with `k` the (type, variant) pair is enumerated systematically"""
+    if k is not None:
+        return f"{EXCS[k % len(EXCS)]}:{VARIANTS[(k // len(EXCS)) % len(VARIANTS)]}"
+    v = "msg" if rng.random() < 0.3 else rng.choice(VARIANTS[1:])
+    return f"{rng.choice(EXCS)}:{v}"
+
+
+def exc_code(name: str) -> int:
+    return 100 + EXCS.index(TR.exc_type_name(name))
+
 
 # ---------------------------------------------------------------------------------------------
 # (a) real stages + fault injection
@@ -94,8 +110,21 @@ REAL_SITES: Dict[str, Dict[str, Any]] = {
     "sidecar_write": {"base": "same"},
     "sidecar_atomic": {"base": "same"},
     "sidecar_created_at": {"base": "same"},
+    # store hooks touched by the snapshot writer (cadence turns) and the boot loader
+    "store_hook_export": {"base": "same", "needs": "hooks"},
+    "store_hook_import": {"base": "same", "needs": "hooks", "patch": "completes_only", "boot_file": True},
+    # the fusion layer "succeeds" with malformed output (real fuse, damaged afterwards): non-float scores only
+    # affect the best-effort enrichment (= fault-free run); a None entry aborts the block before anything is applied
+    # (= fusion off)
+    # (MMR is kept off for this site: it is a second, legitimate consumer of the scores)
+    "quality_fuse#bad_score": {"base": "same", "needs": "fusion_nommr", "rig": ("quality_fuse", {"mode": "mangle", "how": "bad_score"})},
+    "quality_fuse#none_entry": {"base": "cfg", "off": {"t2": {"quality": {"enabled": False}}}, "needs": "fusion",
+                                "ignore": ["t2q.diversity_avg_pairwise", "t2q.mmr.lambda", "t2q.mmr.selected"],
+                                "rig": ("quality_fuse", {"mode": "mangle", "how": "none_entry"})},
 }
-assert all(k in TR.SITES for k in REAL_SITES)
+assert all(k.split("#")[0] in TR.SITES for k in REAL_SITES)
+STORE_STATE_SNAPSHOT = json.dumps({"version_etag": "3", "schema_version": "v1", "turn": 1, "agent": "a1",
+                                   "store": {"state": {"w": [[["node", "n:x", "weight"], 0.5]]}}})
 FUSION_CFG = {"t2": {"quality": {"enabled": True, "shadow": False, "mmr": {"enabled": True}}}}
 
 GARBAGE = [
@@ -235,16 +264,31 @@ class RealFaults(Component):
             case["garbage"] = tag
             case["files"] = {name: content}
             if rng.random() < 0.3:
-                case["faults"].append({"site": rng.choice(sites), "exc": rng.choice(EXCS), "turn": rng.randrange(2)})
+                case["faults"].append({"site": rng.choice(sites), "exc": pick_exc(rng), "turn": rng.randrange(2)})
         else:
             n = 1 if kind == "single" else 2
             base = sites[i % len(sites)]
             chosen = [base] + ([sites[(i // len(sites) + 3 * (i % len(sites))) % len(sites)]] if n == 2 else [])
             for s in chosen:
-                case["faults"].append({"site": s, "exc": EXCS[(i // len(sites) + rng.randrange(len(EXCS))) % len(EXCS)],
+                case["faults"].append({"site": s, "exc": pick_exc(rng, (i // len(sites)) * 5 + rng.randrange(len(EXCS) * len(VARIANTS))),
                                        "turn": rng.randrange(2)})
+        seen, uniq = set(), []
+        for f in case["faults"]:        # at most one behaviour per underlying rig site
+            key = (REAL_SITES[f["site"]].get("rig") or (f["site"],))[0]
+            if key not in seen:
+                seen.add(key)
+                uniq.append(f)
+        case["faults"] = uniq
         if any(REAL_SITES[f["site"]].get("needs") == "fusion" for f in case["faults"]) or rng.random() < 0.15:
             spec["cfg"] = TR.deep_merge(spec["cfg"], FUSION_CFG)
+        if any(REAL_SITES[f["site"]].get("needs") == "fusion_nommr" for f in case["faults"]):
+            spec["cfg"] = TR.deep_merge(TR.deep_merge(spec["cfg"], FUSION_CFG), {"t2": {"quality": {"mmr": {"enabled": False}}}})
+        if any(REAL_SITES[f["site"]].get("needs") == "hooks" for f in case["faults"]) or rng.random() < 0.2:
+            spec["store_hooks"] = True
+        for f in case["faults"]:
+            if REAL_SITES[f["site"]].get("boot_file") and not case.get("files"):
+                f["turn"] = 0
+                case["files"] = {"state_a1.json": STORE_STATE_SNAPSHOT}
         return case
 
     # -- running ---------------------------------------------------------------------------------
@@ -275,7 +319,11 @@ class RealFaults(Component):
                 if f["turn"] == t:
                     extra = REAL_SITES.get(f["site"], {}).get("with") or {}
                     beh.update(copy.deepcopy(extra))
-                    beh[f["site"]] = TR.fault(f["site"], f["exc"], 0 if f["site"].startswith("gel_apply") else None)
+                    rig = REAL_SITES.get(f["site"], {}).get("rig")
+                    if rig:
+                        beh[rig[0]] = dict(rig[1])
+                    else:
+                        beh[f["site"]] = TR.fault(f["site"], f["exc"], 0 if f["site"].startswith("gel_apply") else None)
             beh.update(idle.get(t, {}))
             runs.append(TR.run_turn(w, text, t + 1, beh))
         return runs
@@ -430,7 +478,7 @@ class Skeleton(Component):
             nf = 0 if r < 0.15 else (1 if r < 0.5 else (2 if r < 0.8 else rng.choice([3, 5])))
             pool = DECLARED if rng.random() < 0.8 else MODEL_SITES
             for s in rng.sample(pool, min(nf, len(pool))):
-                f: Dict[str, Any] = {"exc": rng.choice(EXCS)}
+                f: Dict[str, Any] = {"exc": pick_exc(rng)}
                 if s in ("gelApplyMerge", "gelApplySplit", "gelApplyPromo", "cacheInvalidate"):
                     f["at"] = rng.choice([0, 0, 1])
                 sc["faults"][s] = f
@@ -660,7 +708,7 @@ class Skeleton(Component):
     # -- model side ----------------------------------------------------------------------------------
     def _model_turn(self, g: dict, sc: dict, t: int) -> dict:
         F = sc["faults"]
-        code = lambda s: {"err": 100 + EXCS.index(F[s]["exc"])}  # noqa: E731
+        code = lambda s: {"err": exc_code(F[s]["exc"])}  # noqa: E731
         env: Dict[str, Any] = {}
         if t == 0:
             if "bootLoad" in F:
@@ -802,8 +850,54 @@ class QualityLayers(Component):
                                "mmr": {"ok": lst()}, "mmrFallback": {"ok": lst()}, "cfgSnap": {}, "trace": {}}
         r = rng.random()
         nf = 0 if r < 0.2 else (1 if r < 0.6 else (2 if r < 0.85 else rng.choice([3, 6])))
-        faults = {s: rng.choice(EXCS) for s in rng.sample(QLAYERS, nf)}
+        faults = {s: pick_exc(rng) for s in rng.sample(QLAYERS, nf)}
+        # a layer that returns instead of raising, but returns malformed items (failure INSIDE the layer's
+        # consumer, after partial output): non-float scores, entries without id, None entries
+        if rng.random() < 0.45:
+            env["fuse"]["bad"] = rng.choice(["bad_score", "bad_score", "none_entry", "no_ids"])
+            if env["fuse"]["bad"] == "no_ids":
+                env["fuse"]["drop"] = sorted(rng.sample(range(len(env["fuse"]["ok"])), rng.randrange(0, len(env["fuse"]["ok"]) + 1)))
+        for k in ("mmr", "mmrFallback"):
+            if rng.random() < 0.25:
+                env[k]["bad"] = rng.choice(["none_entry", "no_ids"])
+                if env[k]["bad"] == "no_ids":
+                    env[k]["drop"] = sorted(rng.sample(range(len(env[k]["ok"])), rng.randrange(0, len(env[k]["ok"]) + 1)))
         return {"cfg": cfg, "env": env, "faults": faults, "retrieved": ids}
+
+    @staticmethod
+    def _items(layer: dict, extra: Optional[dict] = None) -> list:
+        """what the scripted layer returns: well-formed dict items, damaged as the script says"""
+        out: list = []
+        bad = layer.get("bad")
+        for j, i in enumerate(layer["ok"]):
+            it: Dict[str, Any] = {"id": f"e{i}"}
+            it.update(extra or {})
+            if bad == "bad_score":
+                it["score_fused"] = ["n/a", [], {}, None, "1e"][j % 5]
+            if bad == "no_ids" and j in layer.get("drop", []):
+                it.pop("id")
+            out.append(it)
+        if bad == "none_entry":
+            out.insert(len(out) // 2, None)
+        return out
+
+    @staticmethod
+    def _model_layer(k: str, layer: dict) -> dict:
+        """the same script in the model's terms: an entry without id is simply not picked; a None entry makes the
+        consumer raise inside the layer's guard (= the layer failing), except in the MMR fallback where the flag is
+        already set and nothing is applied (= an empty proposal); non-float scores only feed best-effort metadata"""
+        bad = layer.get("bad")
+        out = dict(layer)
+        out.pop("bad", None)
+        out.pop("drop", None)
+        if bad == "no_ids":
+            out["ok"] = [i for j, i in enumerate(layer["ok"]) if j not in layer.get("drop", [])]
+        if bad == "none_entry":
+            if k == "mmrFallback":
+                out["ok"] = []
+            elif k in ("fuse", "mmr"):
+                return {"err": 199}
+        return out
 
     @staticmethod
     def _call(case: dict, cfg_over: Optional[dict] = None, drop_fault: Optional[List[str]] = None) -> Any:
@@ -834,7 +928,7 @@ class QualityLayers(Component):
             calls.append("fuse")
             if "fuse" in faults:
                 boom("fuse")
-            out = [{"id": f"e{i}", "score_fused": 0.5} for i in env["fuse"]["ok"]]
+            out = QualityLayers._items(env["fuse"], {"score_fused": 0.5})
             box["fused"] = out
             return out, {"alpha": 0.5}
 
@@ -843,7 +937,7 @@ class QualityLayers(Component):
             calls.append(role)
             if role in faults:
                 boom(role)
-            return [{"id": f"e{i}"} for i in env[role]["ok"]]
+            return QualityLayers._items(env[role])
 
         def cfgsnap(cfg_root):
             calls.append("cfgSnap")
@@ -885,6 +979,10 @@ class QualityLayers(Component):
             offs["trace"] = self._call(case, {"shadow": False}, ["cfgSnap", "trace"])
         if "mmr" in F and "mmrFallback" in F:
             offs["mmr"] = self._call(case, {"mmrOn": False}, ["mmr", "mmrFallback"])
+        if case["env"]["fuse"].get("bad") == "bad_score" and "fuse" not in F:
+            clean = copy.deepcopy(case)
+            clean["env"]["fuse"].pop("bad")
+            offs["badscore"] = self._call(clean)
         out["offs"] = offs
         return out
 
@@ -892,7 +990,7 @@ class QualityLayers(Component):
         c = case["cfg"]
         env = {}
         for k in QLAYERS:
-            env[k] = {"err": 100 + EXCS.index(case["faults"][k])} if k in case["faults"] else case["env"][k]
+            env[k] = {"err": exc_code(case["faults"][k])} if k in case["faults"] else self._model_layer(k, case["env"][k])
         return {"c": "quality", "retrieved": case["retrieved"], "env": env,
                 "cfg": {"hybridOn": c["hybridOn"], "qualityOn": c["qualityOn"], "mmrOn": c["mmrOn"],
                         "traceGate": bool(c["perf"] and c["report"] and c["shadow"] and not c["qualityOn"])}}
@@ -913,12 +1011,31 @@ class QualityLayers(Component):
         for layer, off in io.get("offs", {}).items():
             if "raised" in io or "raised" in off:
                 continue
+            if layer == "badscore":
+                res.append(("quality_bad_scores_eq_clean", strip(io) == strip(off),
+                            f"apply_quality with non-float fused scores returned {strip(io)}; with well-formed scores {strip(off)} "
+                            f"(the score map is best-effort metadata)"))
+                continue
             res.append((f"quality_{layer}_fail_eq_off", strip(io) == strip(off),
                         f"apply_quality with failing {layer} returned {strip(io)}, with the layer switched off {strip(off)}"))
+        if "raised" not in io:
+            # whatever happened inside the layers: an ordering that differs from what entered the fusion block must be
+            # accounted for by a flag (otherwise the t2 record describes neither the fault-free nor the off run)
+            c, env = case["cfg"], case["env"]
+            base = list(case["retrieved"])
+            if c["hybridOn"] and "rerank" not in case["faults"]:
+                base = list(env["rerank"]["ok"])
+            if not io["fusionUsed"] and not io["mmrUsed"]:
+                res.append(("quality_order_accounted", io["retrieved"] == base,
+                            f"apply_quality reports fusion/MMR unused but returned order {io['retrieved']} instead of {base} "
+                            f"(faults {case['faults']}, fuse script {env['fuse']})"))
         return res
 
     def tags(self, case, io):
         t = {"hit:" + c[:-1] for c in io.get("calls", []) if c.endswith("!")}
+        for k in ("fuse", "mmr", "mmrFallback"):
+            if case["env"][k].get("bad") and k in io.get("calls", []):
+                t.add(f"malformed:{k}:{case['env'][k]['bad']}")
         if io.get("fusionUsed"):
             t.add("fusion")
         if io.get("mmrUsed"):
